@@ -5,7 +5,8 @@
 
 use crate::gen::{self, GenCfg, NameMode, RawFacts, RawNode, RawRec};
 use crate::props::common::{OntCase, PathSel};
-use crate::props::{c01, c02, c03, c08, c11, c12, c20};
+use crate::props::{c01, c02, c03, c04, c05, c06, c07, c08, c09, c10, c11, c12, c13, c14, c15, c16, c17, c18, c19, c20};
+use crate::model::Model;
 use crate::runner::{Failure, Stats};
 use serde_json::{json, Value};
 use std::sync::Once;
@@ -100,7 +101,7 @@ pub fn raw_facts(r: &mut Reader, cfg: &GenCfg) -> RawFacts {
         shape,
         id_mode,
         nodes,
-        version: (r.u16(), r.u8(), r.u8()),
+        version: (r.u16(), r.u8() % 13, r.u8() % 32),
         recs,
         keys,
         dup_edges,
@@ -169,8 +170,240 @@ pub fn decode(target: &str, data: &[u8]) -> Vec<(&'static str, Value)> {
             f11.edges.retain(|(c, p)| keep.contains(c) && keep.contains(p));
             f11.recs = Default::default();
             f11.ann_calls.clear();
-            vec![("C01", oc.clone()), ("C02", oc.clone()), ("C03", oc), ("C11", serde_json::to_value(f11).unwrap())]
+            let mut f04 = facts.clone();
+            f04.terms.truncate(9);
+            let keep4: std::collections::BTreeSet<u32> = f04.terms.iter().map(|t| t.id).collect();
+            f04.edges.retain(|(c, p)| keep4.contains(c) && keep4.contains(p));
+            for k in 0..3 {
+                for rec in f04.recs[k].iter_mut() {
+                    rec.terms.retain(|t| keep4.contains(t));
+                }
+            }
+            f04.ann_calls = f04.canonical_ann_calls();
+            let keys: Vec<u32> = (0..r.below(6)).map(|_| r.u32()).collect();
+            let queries: Vec<String> = (0..r.below(5)).map(|_| r.name()).collect();
+            let c10 = c10::Case { facts: facts.clone(), path: PathSel::Builder, keys, queries, sweep: false };
+            vec![
+                ("C01", oc.clone()),
+                ("C02", oc.clone()),
+                ("C03", oc),
+                ("C11", serde_json::to_value(f11).unwrap()),
+                ("C04", serde_json::to_value(f04).unwrap()),
+                ("C10", serde_json::to_value(c10).unwrap()),
+            ]
         }
+        // standard-flavour ontology + a selector byte: one property per execution
+        "ont" => {
+            let sel = r.u8() % 6;
+            let std_cfg = |names: NameMode, flags: bool| GenCfg::small().terms(2, 14).recs(3).standard().with_flags(flags).names(names);
+            match sel {
+                0 => {
+                    let rich = r.bool();
+                    let cfg = std_cfg(if rich { NameMode::Rich } else { NameMode::Capped }, true);
+                    let facts = gen::realise(&raw_facts(&mut r, &cfg), &cfg);
+                    let path = if rich { PathSel::BuilderDefaults } else { PathSel::Bin(3) };
+                    vec![("C07", serde_json::to_value(OntCase { facts, path, noise: Default::default() }).unwrap())]
+                }
+                1 => {
+                    let cfg = std_cfg(NameMode::Plain, false);
+                    let mut cfg2 = cfg.clone();
+                    cfg2.flags = true;
+                    let facts = gen::realise(&raw_facts(&mut r, &cfg2), &cfg2);
+                    let ids: Vec<u32> = facts.terms.iter().map(|t| t.id).collect();
+                    let n = r.below(40);
+                    let members = (0..n).map(|_| ids[r.below(ids.len())]).collect();
+                    vec![("C13", serde_json::to_value(c13::Case { facts, members }).unwrap())]
+                }
+                2 => {
+                    let cfg = std_cfg(NameMode::Capped, true);
+                    let facts = gen::realise(&raw_facts(&mut r, &cfg), &cfg);
+                    let m = Model::new(&facts);
+                    let root = if r.bool() { 1 } else { m.ids[r.below(m.ids.len())] };
+                    let mut inside: Vec<u32> = m.desc[m.i(root)].iter().copied().collect();
+                    inside.push(root);
+                    let nl = 1 + r.below(6);
+                    let leaves = (0..nl).map(|_| if r.u8() % 10 == 0 { m.ids[r.below(m.ids.len())] } else { inside[r.below(inside.len())] }).collect();
+                    vec![("C14", serde_json::to_value(c14::Case { facts, root, leaves }).unwrap())]
+                }
+                3 => {
+                    let cfg = std_cfg(NameMode::Capped, true);
+                    let facts = gen::realise(&raw_facts(&mut r, &cfg), &cfg);
+                    let path = [PathSel::BuilderDefaults, PathSel::Bin(1), PathSel::Bin(2), PathSel::Bin(3), PathSel::RoundTrip][r.below(5)];
+                    let keys = (0..48).map(|_| r.u16()).collect();
+                    vec![("C16", serde_json::to_value(c16::Case { base: OntCase { facts, path, noise: Default::default() }, keys, other_path: None }).unwrap())]
+                }
+                4 => {
+                    let cfg = std_cfg(NameMode::Plain, true);
+                    let facts = gen::realise(&raw_facts(&mut r, &cfg), &cfg);
+                    let path = [PathSel::BuilderDefaults, PathSel::Bin(3), PathSel::Bin(1), PathSel::RoundTrip][r.below(4)];
+                    let drop_roots = if r.u8() % 8 == 0 { 1 + r.u8() % 3 } else { 0 };
+                    vec![("C19", serde_json::to_value(c19::Case { base: OntCase { facts, path, noise: Default::default() }, drop_roots }).unwrap())]
+                }
+                _ => {
+                    let mut cfg = std_cfg(NameMode::Capped, true);
+                    cfg.empty_recs = false;
+                    let facts = gen::realise(&raw_facts(&mut r, &cfg), &cfg);
+                    let mut noise = crate::build::JaxNoise { gene_header: r.u8() % 2, typedefs: r.u8() % 3, comments: r.u8() % 3, extra_cols: r.bool(), explicit_false: r.bool(), ..Default::default() };
+                    noise.extra_tags = (0..r.below(5)).map(|_| r.u8()).collect();
+                    let path = if r.bool() { PathSel::Jax } else { PathSel::JaxT };
+                    vec![("C09", serde_json::to_value(OntCase { facts, path, noise }).unwrap())]
+                }
+            }
+        }
+        // Builder call histories
+        "history" => {
+            let nt = 1 + r.below(10);
+            let defaults = r.bool();
+            let mut ids: Vec<u32> = if defaults { vec![1, 118] } else { vec![] };
+            for i in 0..nt {
+                let mut id = match r.u8() % 4 {
+                    0 => i as u32 + 2,
+                    1 => r.u32() % 10_000_000,
+                    2 => [0u32, 9_999_999, 2, 3][i % 4],
+                    _ => 100 + r.u8() as u32,
+                };
+                while ids.contains(&id) {
+                    id = (id + 1) % 10_000_000;
+                }
+                ids.push(id);
+            }
+            let mut terms: Vec<(u32, String)> = ids.iter().map(|i| (*i, r.name())).collect();
+            if r.u8() % 4 == 0 {
+                let t = terms[r.below(terms.len())].clone();
+                terms.push((t.0, format!("{}-again", t.1)));
+            }
+            let absent = |r: &mut Reader, ids: &Vec<u32>| -> u32 {
+                let mut a = match r.u8() % 4 {
+                    0 => 10_000_000 + u32::from(r.u8()),
+                    1 => u32::MAX - u32::from(r.u8() % 7),
+                    _ => r.u32() % 10_000_000,
+                };
+                while ids.contains(&a) {
+                    a = a.wrapping_add(1);
+                }
+                a
+            };
+            let n = ids.len();
+            let mut parents = Vec::new();
+            for _ in 0..r.below(24) {
+                let (x, y) = (r.below(n), r.below(n));
+                match r.u8() % 10 {
+                    0..=5 => {
+                        if x != y {
+                            parents.push((ids[x.min(y)], ids[x.max(y)]));
+                        }
+                    }
+                    6 | 7 => parents.push((ids[x], absent(&mut r, &ids))),
+                    8 => parents.push((absent(&mut r, &ids), ids[x])),
+                    _ => parents.push((absent(&mut r, &ids), absent(&mut r, &ids))),
+                }
+            }
+            let rec_names: Vec<String> = (0..6).map(|_| r.name()).collect();
+            let mut ann = Vec::new();
+            for _ in 0..r.below(24) {
+                let kind = r.u8() % 3;
+                let rec = r.below(6);
+                let rec_id = [1u32, 2, 3, 7, u32::MAX, 0][rec];
+                match r.u8() % 10 {
+                    0..=5 => ann.push(c15::AnnOp { kind, rec: rec_id, name: rec_names[rec].clone(), term: Some(ids[r.below(n)]) }),
+                    6 => ann.push(c15::AnnOp { kind, rec: rec_id, name: rec_names[rec].clone(), term: None }),
+                    _ => ann.push(c15::AnnOp { kind, rec: rec_id, name: format!("{} (rejected call)", rec_names[rec]), term: Some(absent(&mut r, &ids)) }),
+                }
+            }
+            let case = c15::Case { terms, parents, ann, version: (r.u16() % 10000, r.u8(), r.u8()), version_at: r.u8() % 4, defaults };
+            vec![("C15", serde_json::to_value(case).unwrap())]
+        }
+        // base facts + edit script
+        "edits" => {
+            let cfg = GenCfg::small().terms(2, 10).recs(3).standard().with_flags(true).names(NameMode::Capped);
+            let old = gen::realise(&raw_facts(&mut r, &cfg), &cfg);
+            let mut new = old.clone();
+            let mut edits = Vec::new();
+            for _ in 0..r.below(5) {
+                let kind = r.below(c18::EDIT_KINDS.len());
+                let p = [r.u16(), r.u16(), r.u16()];
+                let name = r.name();
+                if let Some(k) = c18::apply_edit(&mut new, kind, p, &name) {
+                    edits.push(k.to_string());
+                }
+            }
+            new.ann_calls = new.canonical_ann_calls();
+            vec![("C18", serde_json::to_value(c18::Case { old, new, edits }).unwrap())]
+        }
+        // matrices, set similarities, clustering, enrichment
+        "numeric" => match r.u8() % 4 {
+            0 => {
+                let (rows, cols) = (r.below(10), r.below(10));
+                let vals: Vec<f32> = (0..8).map(|_| f32::from(r.u8() % 65) / 8.0 - 2.0).collect();
+                let data = (0..rows * cols).map(|_| vals[r.below(8)]).collect();
+                vec![("C05", serde_json::to_value(c05::Case::Matrix { rows, cols, data }).unwrap())]
+            }
+            1 => {
+                let symmetric = r.bool();
+                let mut table: Vec<f32> = (0..c05::NT * c05::NT).map(|_| f32::from(r.u8() % 65) / 8.0 - 2.0).collect();
+                if symmetric {
+                    for i in 0..c05::NT {
+                        for j in 0..i {
+                            table[i * c05::NT + j] = table[j * c05::NT + i];
+                        }
+                    }
+                }
+                let np = 1 + r.below(4);
+                let pairs = (0..np)
+                    .map(|_| {
+                        let (na, nb) = (r.below(9), r.below(9));
+                        ((0..na).map(|_| r.u8()).collect(), (0..nb).map(|_| r.u8()).collect())
+                    })
+                    .collect();
+                vec![("C05", serde_json::to_value(c05::Case::Sets { table, pairs }).unwrap())]
+            }
+            2 => {
+                let n = 2 + r.below(30);
+                let method = r.u8() % 4;
+                let coarse = r.u8() % 6 == 0;
+                let mut next = 1u32;
+                let mut sets: Vec<Vec<u32>> = Vec::new();
+                for _ in 0..n {
+                    let k = if r.u8() % 5 == 0 && (next as usize) + 3 * n < c17::NT as usize { 1 + r.below(3) } else { 1 };
+                    sets.push((0..k).map(|_| { next += 1; next - 1 }).collect());
+                }
+                let mut table = vec![0.0f32; n * n];
+                for i in 0..n {
+                    for j in i + 1..n {
+                        let x = r.u16();
+                        let v = if coarse { f32::from((x % 7) as u8) / 4.0 } else { f32::from(x) / 65536.0 + (i * 40 + j) as f32 };
+                        table[i * n + j] = v;
+                        table[j * n + i] = v;
+                    }
+                }
+                vec![("C17", serde_json::to_value(c17::Case { method, sets, table, seed: u64::from(r.u32()), shift: [0.0f32, 0.5, 2.0][r.below(3)] }).unwrap())]
+            }
+            _ => {
+                let all: Vec<u32> = if r.bool() { (1..=c06::N_LEAVES).collect() } else { (1..=c06::N_LEAVES).chain(501..=520).chain([c06::ROOT]).collect() };
+                let n_bg = 1 + r.below(4) * 100 + r.below(100);
+                let start = r.u16() as usize % all.len();
+                let step = [1usize, 3, 7, 11][r.below(4)];
+                let mut background: Vec<u32> = Vec::new();
+                let mut i = start;
+                while background.len() < n_bg.min(all.len()) {
+                    let t = all[i % all.len()];
+                    if !background.contains(&t) {
+                        background.push(t);
+                    }
+                    i += step;
+                    if i > start + all.len() * step {
+                        break;
+                    }
+                }
+                let n = 1 + (r.u16() as usize) % background.len();
+                if r.bool() {
+                    let sample = background.iter().copied().take(n).collect();
+                    vec![("C06", serde_json::to_value(c06::Case::Enrich { background, sample }).unwrap())]
+                } else {
+                    vec![("C06", serde_json::to_value(c06::Case::Sweep { background, n, kind: r.u8() % 3, rec: 1 + u32::from(r.u8() % 30) }).unwrap())]
+                }
+            }
+        },
         _ => vec![],
     }
 }
@@ -179,7 +412,11 @@ pub fn decode(target: &str, data: &[u8]) -> Vec<(&'static str, Value)> {
 pub fn check_target(target: &str, data: &[u8]) -> Vec<(&'static str, Value, Failure)> {
     let mut out = Vec::new();
     let mut st = Stats::default();
+    let only = std::env::var("HPO_VERIF_FUZZ_PROP").ok();
     for (pid, case) in decode(target, data) {
+        if only.as_deref().is_some_and(|o| o != pid) {
+            continue;
+        }
         let r = match pid {
             "C20" => serde_json::from_value::<String>(case.clone()).ok().map(|c| c20::check_string(&c, &mut st)),
             "C12" => serde_json::from_value::<c12::Case>(case.clone()).ok().map(|c| c12::check(&c, &mut st)),
@@ -188,6 +425,19 @@ pub fn check_target(target: &str, data: &[u8]) -> Vec<(&'static str, Value, Fail
             "C02" => serde_json::from_value::<OntCase>(case.clone()).ok().map(|c| c02::check(&c, &mut st)),
             "C03" => serde_json::from_value::<OntCase>(case.clone()).ok().map(|c| c03::check(&c, &mut st)),
             "C11" => serde_json::from_value::<crate::model::Facts>(case.clone()).ok().map(|c| c11::check(&c, &mut st)),
+            "C04" => serde_json::from_value::<crate::model::Facts>(case.clone()).ok().map(|c| c04::check(&c, &mut st)),
+            "C05" => serde_json::from_value::<c05::Case>(case.clone()).ok().map(|c| c05::check(&c, &mut st)),
+            "C06" => serde_json::from_value::<c06::Case>(case.clone()).ok().map(|c| c06::check(&c, &mut st)),
+            "C07" => serde_json::from_value::<OntCase>(case.clone()).ok().map(|c| c07::check(&c, &mut st)),
+            "C09" => serde_json::from_value::<OntCase>(case.clone()).ok().map(|c| c09::check(&c, &mut st)),
+            "C10" => serde_json::from_value::<c10::Case>(case.clone()).ok().map(|c| c10::check(&c, &mut st)),
+            "C13" => serde_json::from_value::<c13::Case>(case.clone()).ok().map(|c| c13::check(&c, &mut st)),
+            "C14" => serde_json::from_value::<c14::Case>(case.clone()).ok().map(|c| c14::check(&c, &mut st)),
+            "C15" => serde_json::from_value::<c15::Case>(case.clone()).ok().map(|c| c15::check(&c, &mut st)),
+            "C16" => serde_json::from_value::<c16::Case>(case.clone()).ok().map(|c| c16::check(&c, &mut st)),
+            "C17" => serde_json::from_value::<c17::Case>(case.clone()).ok().map(|c| c17::check(&c, &mut st)),
+            "C18" => serde_json::from_value::<c18::Case>(case.clone()).ok().map(|c| c18::check(&c, &mut st)),
+            "C19" => serde_json::from_value::<c19::Case>(case.clone()).ok().map(|c| c19::check(&c, &mut st)),
             _ => None,
         };
         if let Some(Err(f)) = r {
